@@ -92,11 +92,20 @@ private theorem fnvStart_lt (offset mult bits : Nat) (seed : Int) :
     have := Nat.two_pow_pos bits; omega
   omega
 
+/-- the source masks the seeded offset basis (extracted fact; `rfl` fails if it no longer does) -/
+private theorem init64 (seed : Int) :
+    fnvInit Gen.fnv64StartMasked Gen.fnv64Offset Gen.fnv64Mult Gen.fnv64Mask seed =
+      fnvStart Gen.fnv64Offset Gen.fnv64Mult Gen.fnv64Mask seed := rfl
+
+private theorem init32 (seed : Int) :
+    fnvInit Gen.fnv32StartMasked Gen.fnv32Offset Gen.fnv32Mult Gen.fnv32Mask seed =
+      fnvStart Gen.fnv32Offset Gen.fnv32Mult Gen.fnv32Mask seed := rfl
+
 theorem C18_range_fnv64 (key : Key) (seed : Int) : fnv1a64 key seed < 2 ^ 64 := by
-  unfold fnv1a64; rw [mask64]; exact fnvLoop_lt _ 64 _ _ (fnvStart_lt _ _ 64 _)
+  unfold fnv1a64; rw [init64, mask64]; exact fnvLoop_lt _ 64 _ _ (fnvStart_lt _ _ 64 _)
 
 theorem C18_range_fnv32 (key : Key) (seed : Int) : fnv1a32 key seed < 2 ^ 32 := by
-  unfold fnv1a32; rw [mask32]; exact fnvLoop_lt _ 32 _ _ (fnvStart_lt _ _ 32 _)
+  unfold fnv1a32; rw [init32, mask32]; exact fnvLoop_lt _ 32 _ _ (fnvStart_lt _ _ 32 _)
 
 theorem C18_range_default (key : Key) (d : Nat) : ∀ v ∈ defaultFnv key d, v < 2 ^ 64 := by
   intro v hv
@@ -159,14 +168,14 @@ private theorem fnvStart_nat (offset mult bits : Nat) (i : Nat) :
 theorem C18_fnv64_is_published (key : Key) (i : Nat) :
     fnv1a64 key (Int.ofNat i) = Spec.fnv1a64 ((Spec.fnv64Basis + 31 * i) % 2 ^ 64) key.units := by
   unfold fnv1a64 Spec.fnv1a64
-  rw [mask64, fnvLoop_eq_spec, fnvStart_nat]
+  rw [init64, mask64, fnvLoop_eq_spec, fnvStart_nat]
   rfl
 
 /-- the 32-bit variant used by the quotient filter -/
 theorem C18_fnv32_is_published (key : Key) (i : Nat) :
     fnv1a32 key (Int.ofNat i) = Spec.fnv1a32 ((Spec.fnv32Basis + 31 * i) % 2 ^ 32) key.units := by
   unfold fnv1a32 Spec.fnv1a32
-  rw [mask32, fnvLoop_eq_spec, fnvStart_nat]
+  rw [init32, mask32, fnvLoop_eq_spec, fnvStart_nat]
   rfl
 
 theorem C18_default_is_published_fnv (key : Key) (d : Nat) :
